@@ -276,4 +276,6 @@ func corr(c *vh.Ctx) {
 	}
 	corrShow(c)
 	corrQuote(c)
+	corrStmt(c)
+	corrNumLaws(c)
 }
